@@ -577,6 +577,12 @@ func TestVerifC04(t *testing.T) {
 			}
 		}
 	}
+	// a table and a full-address rule for the same key: the table wins, in either declaration order
+	for li := range leaves {
+		tc := c04Clause{Table: []string{"r1@dest.example", "r1@пример.рф"}, Leaf: leaves[li]}
+		ac := c04Clause{Rules: []string{"r1@dest.example", "R1@XN--E1AFMKFD.XN--P1AI"}, Leaf: leaves[(li+1)%nl]}
+		dests = append(dests, &c04Src{Clauses: []c04Clause{tc, ac}, Default: leaves[(li+2)%nl]}, &c04Src{Clauses: []c04Clause{ac, tc}, Default: leaves[(li+2)%nl]})
+	}
 	for _, d := range dests {
 		do(&c04Cfg{Only: d})
 	}
@@ -608,6 +614,12 @@ func TestVerifC04(t *testing.T) {
 				do(&c04Cfg{Clauses: []c04Clause{{Rules: rs1, Body: b}, {Rules: rs2, Body: bodies[(bi+3)%len(bodies)]}}, Default: def})
 			}
 		}
+	}
+	for bi, b := range bodies {
+		tc := c04Clause{Table: []string{"s1@sender.example", "s1@пример.рф"}, Body: b}
+		ac := c04Clause{Rules: []string{"s1@sender.example", "пример.рф"}, Body: bodies[(bi+1)%len(bodies)]}
+		do(&c04Cfg{Clauses: []c04Clause{tc, ac}, Default: bodies[(bi+2)%len(bodies)]})
+		do(&c04Cfg{Clauses: []c04Clause{ac, tc}, Default: bodies[(bi+2)%len(bodies)]})
 	}
 	// ill-formed shapes
 	ok := leaves[0]
